@@ -81,12 +81,46 @@ def canonical_graph():
             "signer": "attestation"}
 
 
+def craft_signature(rng, msg):
+    """(certifier's private scalar, DER signature) such that the signature over msg is a
+    valid, strict, low-S one whose TOTAL encoded length is chosen: 64 bytes (the length of
+    the other, 'compact' signature form), 65, 63, or anything from 9 up.  r comes from a
+    random nonce; s is chosen with the byte length that gives the total; the key that
+    makes (r, s) valid follows: d = (s*k - z) / r  (mod n)."""
+    import secp256k1
+    z = int.from_bytes(hashlib.sha256(msg).digest(), "big")
+    while True:
+        k = rng.randrange(1, N)
+        pub = secp256k1.PrivateKey(k.to_bytes(32, "big"), raw=True).pubkey.serialize(
+            compressed=False)
+        r = int.from_bytes(pub[1:33], "big") % N
+        if r == 0:
+            continue
+        rl = (r.bit_length() + 8) // 8            # DER integer content length
+        total = rng.choice([64, 64, 64, 65, 63, 66, rng.randint(8 + rl, 72)])
+        sl = total - 6 - rl
+        if not 1 <= sl <= 32:
+            continue
+        # content length sl: top bit of the first content byte clear, first byte non-zero
+        s_ = rng.randrange(1 << (8 * sl - 8), 1 << (8 * sl - 1)) if sl > 1 else \
+            rng.randrange(1, 128)
+        if s_ > N // 2:
+            continue
+        d = (s_ * k - z) * pow(r, -1, N) % N
+        if d == 0:
+            continue
+        sig = ecdsa.util.sigencode_der(r, s_, N)
+        assert len(sig) == total, (len(sig), total)
+        return d, sig
+
+
 def build(rng, parents=None, compressed_ok=True):
     """genuine certificate.  Returns (doc, info) where info holds the keys."""
     parents = parents or (canonical_graph() if rng.random() < 0.3 else gen_graph(rng))
-    root = new_key(rng)
     keys = {}
-    elements = {}
+    msgs = {}
+    crafted = {}          # element -> its crafted signature
+    solved = {}           # certifier ("root" or a name) -> private scalar that was solved for
     children = {n: [c for c, p in parents.items() if p == n] for n in parents}
     order = []
     todo = [n for n, p in parents.items() if p == "root"]
@@ -94,18 +128,36 @@ def build(rng, parents=None, compressed_ok=True):
         n = todo.pop(0)
         order.append(n)
         todo.extend(children[n])
-    for n in order:
-        p = parents[n]
-        cert_sk = root if p == "root" else keys[p]
-        keys[n] = new_key(rng)
+    # keys and messages, children before parents: a child's signature may be crafted
+    # (chosen length), which fixes its certifier's key
+    for n in reversed(order):
+        if n in solved:
+            keys[n] = ecdsa.SigningKey.from_secret_exponent(solved[n], curve=CURVE,
+                                                            hashfunc=hashlib.sha256)
+        else:
+            keys[n] = new_key(rng)
         if children[n] or rng.random() < 0.5:
             # (the device rule takes the last 65 bytes: only the long form fits it)
             kb = pub33(keys[n]) if (compressed_ok and n != "device" and
                                     rng.random() < 0.25) else pub65(keys[n])
-            msg = embed_key(n, kb, rng)
+            msgs[n] = embed_key(n, kb, rng)
         else:
-            msg = rng.randbytes(rng.choice([1, 32, 33, 65, 90, 120]))
+            msgs[n] = rng.randbytes(rng.choice([1, 32, 33, 65, 90, 120]))
+        if parents[n] not in solved and rng.random() < 0.12:
+            solved[parents[n]], crafted[n] = craft_signature(rng, msgs[n])
+    root = ecdsa.SigningKey.from_secret_exponent(solved["root"], curve=CURVE,
+                                                 hashfunc=hashlib.sha256) \
+        if "root" in solved else new_key(rng)
+    elements = {}
+    for n in order:
+        p = parents[n]
+        cert_sk = root if p == "root" else keys[p]
+        msg = msgs[n]
         el = {"name": n, "message": msg.hex(), "signed_by": p}
+        if n in crafted:
+            el["signature"] = crafted[n].hex()
+            elements[n] = el
+            continue
         sk = cert_sk
         if rng.random() < 0.5:
             tw = rng.randbytes(rng.choice([32, 32, 1, 20, 64]))
@@ -120,4 +172,5 @@ def build(rng, parents=None, compressed_ok=True):
     el_list = [elements[n] for n in order]
     rng.shuffle(el_list)
     doc = {"version": 1, "targets": targets, "elements": el_list}
-    return doc, {"root": root, "keys": keys, "parents": parents, "order": order}
+    return doc, {"root": root, "keys": keys, "parents": parents, "order": order,
+                 "crafted": {n: len(sg) for n, sg in crafted.items()}}
